@@ -367,6 +367,27 @@ pub fn run(ctx: &mut WorkerCtx, job: &Value) -> JobOutput {
         Ok(Ok(Some(m))) => {
             result["class"] = json!("ok");
             is_model = true;
+            if job["roundtrip"] == true {
+                // C01: the exported document must load as a model equal to the one the library
+                // conversion yields (both as JSON values)
+                let rt = contain(|| -> Result<bool, String> {
+                    let js = m.as_json().map_err(|e| e.to_string())?;
+                    let v1: Value = serde_json::from_str(&js).map_err(|e| e.to_string())?;
+                    let m2 = Model::from_json(&js).map_err(|e| format!("does not load: {}", e))?;
+                    let v2: Value = serde_json::from_str(&m2.as_json().map_err(|e| e.to_string())?).map_err(|e| e.to_string())?;
+                    if v1 != v2 {
+                        let mut d = vec![];
+                        crate::engines::procsim::diff_values("", &v1, &v2, &mut d);
+                        return Err(format!("differs at {}", d.first().cloned().unwrap_or_default()));
+                    }
+                    Ok(true)
+                });
+                match rt {
+                    Ok(Ok(_)) => result["roundtrip"] = json!("equal"),
+                    Ok(Err(e)) => result["roundtrip"] = json!(e.chars().take(140).collect::<String>()),
+                    Err(p) => result["roundtrip"] = json!(format!("panic: {}", p.site.msg)),
+                }
+            }
             if want_closure {
                 let r = contain(|| {
                     let v = serde_json::to_value(&m).expect("model to value");
